@@ -13,7 +13,7 @@ cp $SRC/demo.py $WT/_demo.py
 if ! git apply --3way $SRC/patch.diff 2>/dev/null; then patch -p1 -F3 --no-backup-if-mismatch < $SRC/patch.diff >/dev/null 2>&1 || { echo "$ID-$LET: PATCH DOES NOT APPLY to current HEAD"; cd /; git -C /repo worktree remove --force $WT; exit 3; }; fi
 git reset -q
 /venv/bin/python _demo.py > /tmp/confirm_$ID$LET.mut.log 2>&1; rc_mut=$?
-/venv/bin/python -m pytest -q -p no:cacheprovider --timeout=1800 -n 4 $TESTS > /tmp/confirm_$ID$LET.tests.log 2>&1; rc_tests=$?
+/venv/bin/python -m pytest -q -p no:cacheprovider --timeout=1800 -n 4 ${K:+-k "$K"} $TESTS > /tmp/confirm_$ID$LET.tests.log 2>&1; rc_tests=$?
 tsum=$(tail -1 /tmp/confirm_$ID$LET.tests.log)
 git diff -- tangermeme > /tmp/confirm_$ID$LET.rebased.diff
 echo "$ID-$LET: demo clean rc=$rc_clean, demo mutated rc=$rc_mut, tests rc=$rc_tests ($tsum)"
